@@ -65,6 +65,22 @@ def incs_of(n, var='opIter'):
         x.get('ref', {}).get('name') == var for x in sub(s))]
 
 
+def const_test_edge(cn, lid, value):
+    """which outcome of condition cn means `variable lid == value` (value != 0); None if cn is no such test"""
+    cn = strip(cn)
+    if cn is None:
+        return None
+    if cn['k'] == 'BinaryOperator' and cn.get('op') in ('==', '!='):
+        l, r = strip(cn['c'][0]), strip(cn['c'][1])
+        for a, b in ((l, r), (r, l)):
+            if a['k'] == 'DeclRefExpr' and a['ref'].get('lid') == lid and tab.const_of(b) == value:
+                return cn['op'] == '=='
+    if cn['k'] == 'UnaryOperator' and cn.get('op') == '!':
+        inner = const_test_edge(cn['c'][0], lid, value)
+        return None if inner is None else not inner
+    return None
+
+
 def zero_test_edge(cn, lid):
     """which outcome (True/False) of condition cn means `variable lid is zero`; None if cn is not a zero test of it.
     Idioms: x == 0, 0 == x, x != 0, 0 != x, !x, x (as a condition), x < 1 is not accepted"""
@@ -129,6 +145,32 @@ def check_divisions(rep, fb, rule):
                 if not from_zero and tgt not in seen:
                     ok = True
         rep.check(ok, rule, 'evaluateExpr|%s' % d['op'], locstr(d), 'integer %s with divisor `%s`: zero test that leaves the arm %s' % (d['op'], fb.text(d['c'][1]), 'dominates it' if ok else 'is MISSING (SIGFPE)'))
+        # INT_MIN / -1 and INT_MIN % -1 overflow and trap on the targets this is built for: the divisor -1 never reaches the operator
+        ok1 = False
+        if lid is not None:
+            for bid, b in g.blocks.items():
+                c = b.get('cond')
+                if c is None or c not in ev.nodes:
+                    continue
+                edge = const_test_edge(ev.nodes[c], lid, -1)
+                if edge is None:
+                    continue
+                succ = g.succ_labeled(bid)
+                eq = [s_ for s_, lab in succ if lab is edge]
+                if not eq or d['id'] not in g.pos:
+                    continue
+                tgt = g.pos[d['id']][0]
+                seen = {g.entry}
+                work = [g.entry]
+                while work:
+                    x = work.pop()
+                    for s_ in g.succ(x):
+                        if s_ != bid and s_ not in seen:
+                            seen.add(s_)
+                            work.append(s_)
+                if tgt not in g.reachable_blocks(eq[0]) and tgt not in seen:
+                    ok1 = True
+        rep.check(ok1, rule, 'evaluateExpr|%s|minus one' % d['op'], locstr(d), 'integer %s with divisor `%s`: the divisor -1 %s' % (d['op'], fb.text(d['c'][1]), 'is handled before the operator' if ok1 else 'REACHES the operator: INT_MIN %s -1 overflows (SIGFPE on x86)' % d['op']))
 
 
 def check_index_bounds(rep, fb, rule):
